@@ -8,3 +8,5 @@ ASSUMED = []
 STANDIN = "standins/dbdiff.py"
 TRUSTED = TRUSTED_CORE + [STORAGE_ASSUMED, QUERY_ASSUMED, "callee contracts of get/search are proved under C01; Measurement.select is NOT under contract (bounded stand-in only); __iter__/__len__/all compare the measurement with the name directly (no truthiness test), so they are exact also for the name ''"]
 ASSUMPTIONS = [A_ALIAS, "the restriction is `if measurement and ...` in the code: the name '' is treated like None (KF-19, recorded finding)"]
+# "any read leaves the index valid" is C06's clause (known finding KF-20 for len()/iteration): decided there, not here
+OUT_OF_SCOPE = [r"index_valid_after_read_when_auto"]
